@@ -6,7 +6,7 @@ import json, random
 import vlib
 import wireb_common as W
 
-NEED = ["grease-ext", "grease-suite", "key-share", "ech", "ech-enc-not-32", "psk", "psk-dropped", "ticket", "padded-A", "unpadded-A", "padding-added",
+NEED = ["grease-ext", "grease-suite", "key-share", "ech", "ech-enc-not-32", "grease-share-not-1", "grease-ext-body", "grease-ext2-body", "sid-not-32", "psk", "psk-dropped", "ticket", "padded-A", "unpadded-A", "padding-added",
         "sni-length-differs", "sni-length-same", "same-total", "blunt", "alwayspad", "realpsk", "C", "refused", "unrecognised-ext"]
 
 
@@ -46,12 +46,21 @@ def select(ctx, scns, rnd):
         ech.setdefault((s["src"]["k"], s["src"]["m"]["i"]), []).append(s)
     for k in sorted(ech):
         out.append(rnd.choice(ech[k]))
+    # captures / custom specs with a non-default opaque length: every (what, length) twice
+    opq = {}
+    for s in by.get("craft", []):
+        opq.setdefault(("craft", s["src"]["m"]["op"], s["src"]["k"]), []).append(s)
+    for s in cust:
+        if s["src"]["m"]["op"] in ("gks", "gbody", "gbody2"):
+            opq.setdefault(("custom", s["src"]["m"]["op"], s["src"]["m"]["k"]), []).append(s)
+    for k in sorted(opq):
+        out += rnd.sample(opq[k], min(2, len(opq[k])))
     return out
 
 
 def build_cases(ctx, scns, cspecs, rnd):
     # base hellos for the crafted captures: one real wire hello per parrot
-    need_cap = sorted({s["src"]["id"] for s in scns if s["src"]["kind"] in ("capture", "echcapture")})
+    need_cap = sorted({s["src"]["id"] for s in scns if s["src"]["kind"] in ("capture", "echcapture", "craft")})
     capL = {i: rnd.randrange(8, 60) for i in need_cap}
     base = {}
     if need_cap:
@@ -82,7 +91,9 @@ def build_cases(ctx, scns, cspecs, rnd):
             L = capL[src["id"]]
             L2 = {"same": L, "shorter": max(1, L - d), "longer": L + d}[s["sni"]]
             c["sni"], c["sni2"] = "", W.sni_name(L2, ctx.seed + 17)
-            if src["kind"] == "capture":
+            if src["kind"] == "craft":
+                raw = W.craft(base[src["id"]], src["m"]["op"], src["k"])
+            elif src["kind"] == "capture":
                 raw = W.with_padding(base[src["id"]], src["k"], "end" if src["where"] == "end" else 3)
             else:
                 raw = W.with_ech_sizes(base[src["id"]], src["k"], src["m"]["i"])
@@ -128,6 +139,8 @@ def brief(c):
         b["mutation"] = s["m"]
     if s["kind"] == "capture":
         b["padding"] = s["k"]; b["where"] = s["where"]
+    if s["kind"] == "craft":
+        b["crafted"] = s["m"]["op"]; b["length"] = s["k"]
     if s["kind"] == "echcapture":
         b["ech_enc_len"] = s["k"]; b["ech_payload_len"] = s["m"]["i"]
     if s["kind"] == "randomized":
@@ -212,7 +225,7 @@ def run(ctx):
     if not W.tagged(mc, "ABS"):
         raise vlib.Machinery("Fingerprint_MC never built a full-size abstract hello (Norm sanity vacuous)")
     kinds = {s["src"]["kind"] for s in scns}
-    if kinds != {"parrot", "randomized", "custom", "capture", "echcapture"} or not cspecs:
+    if kinds != {"parrot", "randomized", "custom", "capture", "echcapture", "craft"} or not cspecs:
         raise vlib.Machinery("Fingerprint_MC grid incomplete: %s, %d custom specs" % (kinds, len(cspecs)))
     chosen = select(ctx, scns, rnd)
     cases = build_cases(ctx, chosen, cspecs, rnd)
@@ -245,7 +258,7 @@ def run(ctx):
     for k in nb:
         if k != "custom":
             raise vlib.Machinery("source hello A could not be built for %s scenarios: %s" % (k, nb[k][:3]))
-    if ctx.findings:
+    if W.unknown_findings(ctx):
         return "model_checking", {"evaluations": len(rows), "distinct_nontrivial": len(rows) - len(skipped), "rule": "see passing runs",
                                   "samples": [], "exhaustive": False, "rejected": len(rej)}, []
     missing = [f for f in NEED if f not in feats]
@@ -265,7 +278,8 @@ def run(ctx):
     cov = {"evaluations": len(rows), "distinct_nontrivial": len(rows) - len(skipped),
            "rule": "TLC grid: source {38 parrots, 3 randomized ids x 8 seed slots (seeds from VERIF_SEED), %d TLC-generated custom specs "
                    "(drop/swap/add/field mutants of the dumped parrot specs), captures with crafted padding {1,2,5,33,200} x {end, middle}, captures with GREASE-ECH enc sizes {1,31,33,65,97,133} x payload sizes "
-                   "{144,16,100,250}} x 8 flag "
+                   "{144,16,100,250}, captures / custom specs with GREASE key_share key_exchange {2,7,32}, first GREASE extension body {1,5}, second {2,5}, "
+                   "session id {0,16}, ticket {48,200}} x 8 flag "
                    "combinations x sni class {same, shorter, longer} = %d points; %s; evaluations = scenarios whose A, B, C wire hellos were "
                    "judged by TLC (Norm(A)=Norm(B), lengths, padding policy, Norm(C)=Norm(B)); distinct = those with a valid A"
                    % (len(cspecs), len(scns), "quick: seeded sample keeping every parrot x flag combination" if ctx.quick else "all points"),
